@@ -6,13 +6,33 @@ package bucketteer
 // `package bucketteer` and carry their own copies of getCleanSet / sortWithCompare / eytzinger /
 // searchEytzinger / readUint64Le, so this file is injected into either of them.
 
-import "encoding/binary"
+import (
+	"encoding/binary"
+	"io"
+)
 
 // Hash is the CUT of the real Hash (xxhash.Sum64 over the 64 signature bytes, not encodable):
 // an arbitrary but fixed function of the signature. Harness signatures vary only in their first
 // 8 bytes (2 prefix bytes + 6 identity bytes), so the uninterpreted function takes those.
+// Signatures whose last byte is verifC05Concrete get a CONCRETE hash (5 + 3*identity, identity =
+// bytes 2..7): used for large bucket populations and fixed put orders, where symbolic hashes
+// would fork the sort model n! ways. Hash stays one deterministic function of the signature.
 func Hash(sig [64]byte) uint64 {
+	if sig[63] == verifC05Concrete {
+		return 5 + 3*(binary.LittleEndian.Uint64(sig[:8])>>16)
+	}
 	return verifUF64("xxhash", binary.LittleEndian.Uint64(sig[:8]))
+}
+
+const verifC05Concrete = 0xC5
+
+// verifC05ConcSig: signature under prefix p whose hash is the concrete value 5+3*id.
+func verifC05ConcSig(p [2]byte, id uint64) [64]byte {
+	var s [64]byte
+	binary.LittleEndian.PutUint64(s[:8], id<<16)
+	s[0], s[1] = p[0], p[1]
+	s[63] = verifC05Concrete
+	return s
 }
 
 // branch-free connectives under symgo (engine intrinsics, ext_C05.go); plain Go natively
@@ -59,105 +79,48 @@ func verifC05Cmp(e []uint64) func(i, j int) int {
 	}
 }
 
-// C05.clean — getCleanSet returns a strictly increasing slice holding exactly the values of the
-// input multiset (arbitrary order, duplicates allowed).
-func VerifC05Clean() {
-	n := verifChoice("n", verifParam("N", 4)+1)
-	in := verifC05Hashes(n, false)
-	orig := append([]uint64(nil), in...)
-	out := getCleanSet(in)
-	verifAssert(len(out) <= n && (n == 0 || len(out) >= 1), "C05.clean: output length out of range")
-	for i := 1; i < len(out); i++ {
-		verifAssert(out[i-1] < out[i], "C05.clean: output not strictly increasing")
-	}
-	for _, x := range orig { // no input value is lost
-		hit := false
-		for _, y := range out {
-			hit = verifC05Or(hit, x == y)
+// verifC05RefLayout: REFERENCE definition of the on-disk order of a bucket (independent of the
+// code under test): the strictly increasing hashes are the in-order traversal of the implicit
+// complete binary tree stored breadth-first (node k has children 2k and 2k+1, 1-based).
+func verifC05RefLayout(sorted []uint64) []uint64 {
+	out := make([]uint64, len(sorted))
+	next := 0
+	var walk func(k int)
+	walk = func(k int) {
+		if k > len(sorted) {
+			return
 		}
-		verifAssert(hit, "C05.clean: an input hash is missing from the clean set (false negative)")
+		walk(2 * k)
+		out[k-1] = sorted[next]
+		next++
+		walk(2*k + 1)
 	}
-	for _, y := range out { // nothing is invented
-		hit := false
-		for _, x := range orig {
-			hit = verifC05Or(hit, x == y)
-		}
-		verifAssert(hit, "C05.clean: clean set holds a value that was never added")
-	}
-	verifReach("end")
+	walk(1)
+	return out
 }
 
-// verifC05Pops: bucket populations for the concrete-key mode: every n in 0..N plus the
-// 2^k-1, 2^k, 2^k+1 boundaries up to big.
-func verifC05Pops(N, big int) []int {
-	var out []int
-	for n := 0; n <= N; n++ {
-		out = append(out, n)
-	}
-	for k := 64; k <= big; k *= 2 {
-		for _, n := range []int{k - 1, k, k + 1} {
-			if n > N {
-				out = append(out, n)
-			}
-		}
+// verifC05RefBucket: reference serialisation of one bucket: u32 LE count, then u64 LE hashes in
+// the reference layout.
+func verifC05RefBucket(sorted []uint64) []byte {
+	lay := verifC05RefLayout(sorted)
+	out := make([]byte, 4+8*len(lay))
+	binary.LittleEndian.PutUint32(out, uint32(len(lay)))
+	for i, h := range lay {
+		binary.LittleEndian.PutUint64(out[4+8*i:], h)
 	}
 	return out
 }
 
-// verifC05ConcreteKeys: n distinct concrete hashes 5, 8, 11, ... fed in the order (1,0,3,2,...)
-// plus one duplicate, so that the real dedup and both sorts have work to do but nothing forks.
-func verifC05ConcreteKeys(n int) []uint64 {
-	h := make([]uint64, 0, n+1)
-	for i := 0; i < n; i++ {
-		j := i ^ 1
-		if j >= n {
-			j = i
-		}
-		h = append(h, uint64(3*j+5))
-	}
-	if n > 0 {
-		h = append(h, h[n/2])
-	}
-	return h
-}
+// verifC05RA: array-backed io.ReaderAt (a second ReaderAt implementation besides *os.File / mmap)
+type verifC05RA struct{ data []byte }
 
-// C05.search.* — the in-memory bucket pipeline of seal (getCleanSet, sortWithCompare with the
-// three-way comparator, eytzinger) followed by the reader's searchEytzinger:
-// for EVERY 64-bit x: found (nil error, returned value x) iff x is one of the added hashes,
-// otherwise ErrNotFound. x ranges over all values, so "every added hash is found" is the
-// x == h[i] instance.
-// mode 0: the hashes are symbolic (n <= perm: arbitrary order with duplicates; larger n: assumed
-// strictly increasing). mode 1: concrete hashes, population n up to thousands; the code under
-// test only compares hashes, so x symbolic covers each of the 2n+1 order positions of x.
-func VerifC05Search() {
-	var h []uint64
-	if verifParam("conc", 0) == 1 {
-		pops := verifC05Pops(verifParam("N", 16), verifParam("big", 0))
-		h = verifC05ConcreteKeys(pops[verifChoice("n", len(pops))])
-	} else {
-		minN := verifParam("minN", 0)
-		n := minN + verifChoice("n", verifParam("N", 8)-minN+1)
-		h = verifC05Hashes(n, n > verifParam("perm", 3))
+func (r *verifC05RA) ReadAt(p []byte, off int64) (int, error) {
+	if off < 0 || off >= int64(len(r.data)) {
+		return 0, io.EOF
 	}
-	orig := append([]uint64(nil), h...)
-	entries := getCleanSet(h)
-	sortWithCompare(entries, verifC05Cmp(entries))
-	x := verifU64("x")
-	got, err := searchEytzinger(0, len(entries), x, func(i int) (uint64, error) {
-		return entries[i], nil
-	})
-	in := false
-	for _, y := range orig {
-		in = verifC05Or(in, x == y)
+	n := copy(p, r.data[off:])
+	if n < len(p) {
+		return n, io.EOF
 	}
-	if err == nil {
-		verifAssert(got == x, "C05.search: search returned a value different from the wanted hash")
-		verifAssert(in, "C05.search: search found a hash that was never added")
-		verifReach("found")
-	} else {
-		verifAssert(err == ErrNotFound, "C05.search: unexpected error")
-		verifAssert(!in, "C05.search: an added hash is not found in its own bucket (false negative)")
-		verifReach("notfound")
-	}
-	verifReach("end")
+	return n, nil
 }
